@@ -208,18 +208,36 @@ bool tl_vacant(const TL* l, unsigned short i) { return TL_vacant(l, i); }
 unsigned tl_count(const TL* l) { return l->_count; }
 unsigned tl_capacity(void) { return CAP; }
 bool tl_item_is(const TL* l, unsigned short i, unsigned short o, unsigned short d, TransitionType t) { return i < CAP && l->_items[i].origin == o && l->_items[i].destination == d && l->_items[i].type == t; }
-void dfcc_tl_remove()  { TL l; l.remove(nd_u16()); VREACH("the contract's precondition is satisfiable: the call returns"); }
+// ghost slot of the frame clauses in contracts/tasklist.spec (an arbitrary slot, its vacancy and - when live - its contents)
+unsigned short tl_ghost, tl_ghost_o, tl_ghost_d; unsigned char tl_ghost_vacant; TransitionType tl_ghost_t;
+static void tl_ghost_any() { tl_ghost = nd_u16(); tl_ghost_o = nd_u16(); tl_ghost_d = nd_u16(); tl_ghost_vacant = nd_u8() & 1; tl_ghost_t = (TransitionType) nd_u8(); }
+void dfcc_tl_remove()  { TL l; tl_ghost_any(); l.remove(nd_u16()); VREACH("the contract's precondition is satisfiable: the call returns"); }
 void dfcc_tl_clear()   { TL l; l.clear(); VREACH("the contract's precondition is satisfiable: the call returns"); }
 #ifndef PAYLOAD_INT
-void dfcc_tl_emplace() { TL l; StateID o = nd_u16(); StateID d = nd_u16(); l.emplace(o, d, TransitionType::CHANGE); VREACH("the contract's precondition is satisfiable: the call returns"); }
+void dfcc_tl_emplace() { TL l; tl_ghost_any(); StateID o = nd_u16(); StateID d = nd_u16(); l.emplace(o, d, TransitionType::CHANGE); VREACH("the contract's precondition is satisfiable: the call returns"); }
 // a caller verified against the CONTRACTS of its callees (their bodies are not looked at): fill a pool, drain it, it is empty and well-formed
 void dfcc_tl_client() {
   TL l;
   StateID o = nd_u16(); StateID d = nd_u16();
+  tl_ghost = 0; tl_ghost_vacant = 1;                                     // slot 0 of a new pool is vacant
   const Long a = l.emplace(o, d, TransitionType::CHANGE);
   __CPROVER_assert(a < CAP, "C19: client: insert into a new pool succeeds");
+#if CAP >= 2
+  // the frame clauses, instantiated for slot a: a second insert neither returns a nor disturbs it, and removing the second leaves a live and intact
+  StateID o2 = nd_u16(); StateID d2 = nd_u16();
+  tl_ghost = a; tl_ghost_vacant = 0; tl_ghost_o = o; tl_ghost_d = d; tl_ghost_t = TransitionType::CHANGE;
+  const Long b = l.emplace(o2, d2, TransitionType::RESTART);
+  __CPROVER_assert(b != a && b < CAP, "C19: client: insert returns a slot not in use (by the callee contract alone)");
+  __CPROVER_assert(!tl_vacant(&l, a) && tl_item_is(&l, a, o, d, TransitionType::CHANGE), "C19: client: a live item keeps its contents across an insert (by the callee contract alone)");
+  l.remove(b);
+  __CPROVER_assert(!tl_vacant(&l, a) && tl_item_is(&l, a, o, d, TransitionType::CHANGE) && tl_vacant(&l, b), "C19: client: remove frees exactly the addressed slot (by the callee contract alone)");
+  tl_ghost = b; tl_ghost_vacant = 1;                                     // ... and now instantiated for the vacant slot b
+#endif
   const unsigned n = l.count();
   l.remove(a);
+#if CAP >= 2
+  __CPROVER_assert(tl_vacant(&l, b), "C19: client: a vacant slot stays vacant across a remove (by the callee contract alone)");
+#endif
   __CPROVER_assert(l.count() + 1 == n && tl_wf(&l), "C19: client: remove undoes the insert (by the callee contracts alone)");
   VREACH("the callee contracts are consistent: the client reaches its end");
 }
